@@ -45,7 +45,9 @@ def cases(draw, tier):
         draw(st.sampled_from(["int", "dyadic", "posint", "small"]))
     spec = draw(gen.table_specs(tier, values=values, md=True, history=True))
     case = {"table": spec, "what": what, "axis": draw(ops.AX),
-            "inplace": draw(st.booleans())}
+            "inplace": draw(st.booleans()),
+            # the flag as a numpy boolean (true/false, but not True/False)
+            "npflag": draw(st.sampled_from([False, False, True]))}
     if what == "transform":
         case["fn"] = draw(st.sampled_from(FNS))
     if what == "rankdata":
@@ -134,6 +136,8 @@ def dense_from_vectors(ref, axis, vecs):
 
 def check(case, rec):
     what, axis, inplace = case["what"], case["axis"], case["inplace"]
+    if case.get("npflag"):
+        inplace = np.bool_(inplace)
     t = gen.build(case["table"], rec=rec)
     before = observe.snapshot(t)
     if not observe.all_finite(before):
